@@ -263,6 +263,43 @@ fn batch_case(ctx: &Ctx, rep: &mut Report, id: usize, k: usize, pat: usize, leg:
             },
         }
     }
+    // an adaptive cancelling pair (free module only, where the batch factors are observable): two members get
+    // offsetting defects computed from the factors the verifier used on the previous run
+    if <P as Gx>::IS_FM && k >= 2 && all_valid && pat % 2 == 0 {
+        let i = 0usize;
+        let j = 1 + (pat / 2) % (k - 1).min(200);
+        if members[i].cfg.mn() > 1 && members[j].cfg.mn() > 1 && j / 256 == i / 256 {
+            let bump = |p: &Proof, d: &Scalar| -> Proof {
+                let mut parts = Parts::of(p);
+                parts.d1[0] = (Scalar::from_canonical_bytes(parts.d1[0]).unwrap() + d).to_bytes();
+                parts.to_proof().unwrap()
+            };
+            let bs: Vec<P> = [i, j].iter().filter_map(|x| Parts::of(&proofs[*x]).to_ref().map(|r| r.b)).collect();
+            let di = rand_scalar(&mut rng);
+            let mut dj = -di;
+            for round in 0..3 {
+                let mut pr = proofs.clone();
+                pr[i] = bump(&proofs[i], &di);
+                pr[j] = bump(&proofs[j], &dj);
+                <P as Gx>::probe_arm();
+                let r = no_panic(|| verify_many(&ts, &sts, &pr, VerifyAction::VerifyOnly));
+                let w = <P as Gx>::probe_take_weights(&bs);
+                rep.count("adaptive_cancelling_rounds", 1);
+                if let Ok(Ok(_)) = r {
+                    rep.violation(
+                        &format!("C03 batch-accepts-invalid-member adaptive-pair round{}", if round == 0 { "0" } else { ">0" }),
+                        &format!("a batch of {k} whose members {i} and {j} carry offsetting defects (computed from the factors observed on the previous run) was accepted although each is invalid alone"),
+                        replay.clone(),
+                    );
+                    break;
+                }
+                match w {
+                    Some(w) if w.len() == 2 && w[1] != Scalar::ZERO => dj = -di * w[0] * w[1].invert(),
+                    _ => break,
+                }
+            }
+        }
+    }
     // RecoverOnly on an all-valid batch returns the same masks
     if all_valid {
         if let Ok(Ok(masks)) = no_panic(|| verify_many(&ts, &sts, &proofs, VerifyAction::RecoverOnly)) {
